@@ -406,6 +406,9 @@ func (p *remoteProp) placeFault(rc *RunCtx, rp *RemoteParams) {
 		// legitimately changes how the client behaves afterwards
 		if rq.Class == "manifest" || rq.Class == "blob" || rq.Class == "upload-start" || rq.Class == "upload-put" {
 			reqs = append(reqs, rq)
+		} else if rq.Class == "referrers" && rp.FaultFrom == 0 {
+			// ... but one that is plainly throttled says nothing about the capability: see the kinds below
+			reqs = append(reqs, rq)
 		}
 	}
 	lastPick = [2]uint64{rp.FaultPick[0], rp.FaultPick[1]}
@@ -427,6 +430,9 @@ func (p *remoteProp) placeFault(rc *RunCtx, rp *RemoteParams) {
 	kinds := []string{"status-500", "transport"}
 	if rq.Status >= 200 && rq.Status <= 299 && (rq.Method == "GET" || rq.Method == "HEAD") {
 		kinds = []string{"digest-header", "digest-header", "content-length", "content-type", "truncate-body", "flip-body", "flip-body", "status-500", "transport"}
+	}
+	if rq.Class == "referrers" {
+		kinds = []string{"status-429"}
 	}
 	rp.Fault = &NetFault{Class: rq.Class, Method: rq.Method, Occur: occur, Kind: kinds[rp0(rp, 1)%uint64(len(kinds))]}
 }
@@ -672,7 +678,7 @@ func (p *remoteProp) step(ctx context.Context, rc *RunCtx, rp *RemoteParams, g *
 		// two pushes side by side. A plainly failed exchange may fail either or both of them; one
 		// that reports success has stored its manifest and, on a registry without the Referrers
 		// API, recorded it as referrer - the later Predecessors steps hold it to that.
-		plain := !fired || (rp.Fault != nil && (rp.Fault.Kind == "status-500" || rp.Fault.Kind == "transport"))
+		plain := !fired || (rp.Fault != nil && (rp.Fault.Kind == "status-500" || rp.Fault.Kind == "status-429" || rp.Fault.Kind == "transport"))
 		for k, e := range []error{err, err2} {
 			nk := n
 			if k == 1 {
@@ -703,7 +709,7 @@ func (p *remoteProp) step(ctx context.Context, rc *RunCtx, rp *RemoteParams, g *
 		seekViolation.Detail += "\n" + hist()
 		return seekViolation
 	}
-	if fired && rp.Fault != nil && (rp.Fault.Kind == "status-500" || rp.Fault.Kind == "transport") {
+	if fired && rp.Fault != nil && (rp.Fault.Kind == "status-500" || rp.Fault.Kind == "status-429" || rp.Fault.Kind == "transport") {
 		// a plainly failed exchange: the operation may fail; nothing else is judged for this step
 		return nil
 	}
@@ -977,8 +983,8 @@ func (p *remoteProp) step(ctx context.Context, rc *RunCtx, rp *RemoteParams, g *
 
 // readSeek applies a Read/Seek sequence and compares with the stored bytes.
 func (p *remoteProp) readSeek(rc io.ReadCloser, n *Node, op RemoteOp, present bool, refused *error, faultKind func() string) *Verdict {
-	failing := func() bool { k := faultKind(); return k == "status-500" || k == "transport" }
-	tampering := func() bool { k := faultKind(); return k != "" && k != "status-500" && k != "transport" }
+	failing := func() bool { k := faultKind(); return k == "status-500" || k == "status-429" || k == "transport" }
+	tampering := func() bool { k := faultKind(); return k != "" && k != "status-500" && k != "status-429" && k != "transport" }
 	data := n.Data
 	var pos int64
 	sk, canSeek := rc.(io.Seeker)
